@@ -575,11 +575,106 @@ def rule_horizon(repo, tier):
     return res
 
 
+# ---------------------------------------------------------------- TIMEIDX: one time index per step of a horizon loop
+
+def _time_loops(f):
+    for n in ast.walk(f.node):
+        if isinstance(n, ast.For) and isinstance(n.target, ast.Name) and isinstance(n.iter, ast.Call) and dotted(n.iter.func) == 'range':
+            yield n
+
+
+def _time_subscripts(loop):
+    """[(subscript, time expr, is_store)]: `X[..., <expr mentioning the loop variable>, :(, :)]` in the loop body"""
+    v = loop.target.id
+    out = []
+    for st in loop.body:
+        for n in ast.walk(st):
+            if isinstance(n, ast.Subscript) and isinstance(n.slice, ast.Tuple) and len(n.slice.elts) >= 2 and \
+                    isinstance(n.slice.elts[0], ast.Constant) and n.slice.elts[0].value is Ellipsis:
+                e = n.slice.elts[1]
+                if not isinstance(e, ast.Slice) and any(isinstance(x, ast.Name) and x.id == v for x in ast.walk(e)):
+                    out.append((n, e, isinstance(n.ctx, ast.Store)))
+    return out
+
+
+def _affine(e, v):
+    """e as v + c -> c, or None"""
+    if isinstance(e, ast.Name) and e.id == v:
+        return 0
+    if isinstance(e, ast.BinOp) and isinstance(e.op, (ast.Add, ast.Sub)) and isinstance(e.right, ast.Constant) and isinstance(e.right.value, int):
+        c = _affine(e.left, v)
+        return None if c is None else c + (e.right.value if isinstance(e.op, ast.Add) else -e.right.value)
+    if isinstance(e, ast.BinOp) and isinstance(e.op, ast.Add) and isinstance(e.left, ast.Constant) and isinstance(e.left.value, int):
+        c = _affine(e.right, v)
+        return None if c is None else c + e.left.value
+    return None
+
+
+@guarded
+def rule_timeidx(repo, tier):
+    """Within one pass of a horizon loop every per-step table (cost matrices Q_t, p_t, nominal x_t, u_t, gains K_t, k_t) is read at ONE time index, the step the
+    pass is about, and written at that index or - the successor state - one after it.  A read at another offset pairs the cost of one step with the dynamics of its
+    neighbour (invisible for time-invariant tables).  And every roll-out call system(x, u) in such a loop is given loop-variant arguments: each argument mentions
+    the loop variable or a name the loop re-binds (the carried state); an argument fixed before the loop drives every step with the first step's value."""
+    res = RuleResult('C14.TIMEIDX', 'horizon loops of LQR / runsys: all per-step tables are read at one time index per pass and written at that index or its successor; '
+                     'every argument of a roll-out call system(x, u) in the loop varies with the loop', floor=5)
+    for mod, q in ((LQR, 'LQR.lqr_backward'), (LQR, 'LQR.lqr_forward'), ('pypose.module.dynamics', 'runsys')):
+        f = repo.func(mod, q)
+        loops = list(_time_loops(f))
+        if not loops:
+            raise AnalysisError('C14.TIMEIDX: %s has no `for t in range(..)` loop any more' % q)
+        for loop in loops:
+            v = loop.target.id
+            subs = _time_subscripts(loop)
+            offs = [(n, _affine(e, v), st) for n, e, st in subs]
+            loads = sorted({o for n, o, st in offs if not st and o is not None})
+            stores = sorted({o for n, o, st in offs if st and o is not None})
+            res.inst({'function': f.fq, 'loop': src(loop.iter)[:40], 'indexed reads': sum(1 for x in offs if not x[2]), 'read offsets': loads, 'write offsets': stores},
+                     (f.fq, 'loop', src(loop.iter)[:40]))
+            for n, o, st in offs:
+                if o is None:
+                    res.add(Finding('C14.TIMEIDX', f, 'the time index `%s` of `%s` is not the loop variable plus a constant' % (src(n.slice.elts[1]), src(n)[:50]), node=n,
+                                    construct='time index form|' + src(n.value)))
+            if len(loads) > 1:
+                # the minority offset is the deviant one
+                cnt = {o: sum(1 for n, oo, st in offs if not st and oo == o) for o in loads}
+                major = max(loads, key=lambda o: cnt[o])
+                for n, o, st in offs:
+                    if not st and o is not None and o != major:
+                        res.add(Finding('C14.TIMEIDX', f, '`%s` is read at step %s%+d while the other %d per-step reads of this pass are at %s%+d: the quantities of two '
+                                        'different steps are combined (invisible while the table is constant over the horizon)' % (src(n)[:50], v, o, cnt[major], v, major),
+                                        node=n, construct='time index|' + src(n.value)))
+            if loads:
+                major = max(loads, key=lambda o: sum(1 for n, oo, st in offs if not st and oo == o))
+                for n, o, st in offs:
+                    if st and o is not None and o not in (major, major + 1):
+                        res.add(Finding('C14.TIMEIDX', f, '`%s` is written at step %s%+d, the pass reads step %s%+d' % (src(n)[:50], v, o, v, major), node=n,
+                                        construct='time index store|' + src(n.value)))
+            # roll-out calls
+            rebound = set()
+            for st in loop.body:
+                for n in ast.walk(st):
+                    if isinstance(n, ast.Name) and isinstance(n.ctx, ast.Store):
+                        rebound.add(n.id)
+            for st in loop.body:
+                for c in ast.walk(st):
+                    if isinstance(c, ast.Call) and (dotted(c.func) or '') in ('system', 'self.system', 'self.model'):
+                        for i, a in enumerate(c.args):
+                            names = {x.id for x in ast.walk(a) if isinstance(x, ast.Name)}
+                            ok = v in names or bool(names & rebound)
+                            res.inst({'function': f.fq, 'roll-out call': src(c)[:60], 'argument': i, 'varies with the loop': ok}, (f.fq, 'call', src(c)[:60], i))
+                            if not ok:
+                                res.add(Finding('C14.TIMEIDX', f, 'argument %d (`%s`) of the roll-out call `%s` is fixed before the loop (it mentions neither `%s` nor a name '
+                                                'the loop re-binds): every step is driven by the first step\'s value' % (i, src(a)[:40], src(c)[:50], v), node=c,
+                                                construct='rollout argument|%d' % i))
+    return res
+
+
 def _rules_core(repo, tier):
     from ..stale import rule_stale
     from ..effects import rule_pure
     from ..fresh import rule_fresh
-    return [__import__('sa.rules.c15', fromlist=['x']).rule_adv(repo, 'C14.ADV'), rule_horizon(repo, tier), rule_pure(repo, 'C14.PURE', 'LQR / MPC do not write in place into x_init, the nominal input trajectory or the cost tensors they are given',
+    return [__import__('sa.rules.c15', fromlist=['x']).rule_adv(repo, 'C14.ADV'), rule_horizon(repo, tier), rule_timeidx(repo, tier), rule_pure(repo, 'C14.PURE', 'LQR / MPC do not write in place into x_init, the nominal input trajectory or the cost tensors they are given',
                       [(LQR, 'LQR.forward'), (LQR, 'LQR.lqr_backward'), (LQR, 'LQR.lqr_forward'), ('pypose.module.mpc', 'MPC.forward'),
                        ('pypose.module.dynamics', 'runsys'), ('pypose.module.dynamics', 'toBTN')]),
             rule_fresh(repo, 'C14.FRESH', 'the roll-out buffers and the cost accumulator of a solve are allocated by that solve: nothing written in place '
@@ -596,7 +691,7 @@ def rules(repo, tier):
     from ..callsig import rule_callsig
     from ..docsig import rule_docsig
     from ..restore import rule_restore
-    return list(_rules_core(repo, tier)) + [rule_memo(repo, 'C14.MEMO', 'history independence: nothing computed from the contents of a tensor argument is kept '
+    return list(_rules_core(repo, tier)) + __import__('sa.core', fromlist=['x']).reid([__import__('sa.rules.c15', fromlist=['x']).rule_own_hook(repo)], 'C14') + [rule_memo(repo, 'C14.MEMO', 'history independence: nothing computed from the contents of a tensor argument is kept '
                                                       'under the identity, address or version of that tensor, in module-level storage, or published from a generator '
                                                       'before it is complete - a later call with the same object and other contents must not be answered from it',
                                                       ['pypose.module.lqr', 'pypose.module.mpc', 'pypose.module.dynamics'], floor=3),
